@@ -1188,3 +1188,18 @@ def armpat_formula(ix, cond, extract, depth=0):
             y = ("and", y, z if p2 else ("not", z))
         out = ("or", out, y)
     return out
+
+
+def enum_guarded(ix, node, lid, suffix, upto=None):
+    """node executes only when the field-less enum local `lid` is the variant whose path ends with `suffix`:
+    under `if lid == V`, in the else-branch of `if lid != V`, or in a `V =>` arm of `match lid`"""
+    for c_, pol in path_conditions(ix, node, upto=upto, arms=True):
+        if c_.get("k") == "armpat":
+            if pol and is_local(c_["scrut"], lid):
+                alts = pat_alts(c_["pat"])
+                if alts and all((a.get("path") or "").endswith(suffix) for a in alts):
+                    return True
+            continue
+        if pol and is_eq_test(c_, lid, suffix):
+            return True
+    return False
